@@ -53,6 +53,7 @@ def main():
                 caught[p] = {"rc": c.returncode, "violation": viol[0] if viol else None, "wall": round(time.time() - t0, 1)}
         finally:
             sh("git -C /repo checkout -- .")
+            sh("git -C /repo clean -fdq src")
         hit = [p for p, v in caught.items() if v["rc"] != 0]
         withinput = [p for p, v in caught.items() if v["violation"] and "no-failing-input-found" not in v["violation"]]
         results[sid] = {"breaks": meta.get("breaks"), "caught_by": hit, "caught_with_failing_input": withinput, "detail": caught}
